@@ -12,16 +12,22 @@ pub fn build_anonymous_then_drop() {
     let size: usize = kani::any();
     let prot: i32 = kani::any();
     let flags: i32 = kani::any();
-    let r = MmapRegionBuilder::<()>::new(size).with_mmap_prot(prot).with_mmap_flags(flags).build();
+    // every builder option that does not change WHAT is mapped must leave the extent alone
+    let huge: u8 = kani::any();
+    let mut b = MmapRegionBuilder::<()>::new(size).with_mmap_prot(prot).with_mmap_flags(flags);
+    if huge == 1 { b = b.with_hugetlbfs(true); } else if huge == 2 { b = b.with_hugetlbfs(false); }
+    let r = b.build();
     let calls = unsafe { ffi::MMAP_CALLS };
     kani::cover!(r.is_ok());
+    kani::cover!(r.is_ok() && huge == 1);
     if flags & libc::MAP_FIXED != 0 {
         assert!(matches!(r, Err(Error::MapFixed)), "C15: MAP_FIXED must be refused");
         assert!(calls == 0, "C15: a refused request must not have mapped anything");
     } else {
         assert!(calls == 1, "C12,C15: building a region must call mmap exactly once");
         let a = unsafe { ffi::MMAP_ARGS };
-        assert!(a.0 == 0 && a.1 == size && a.2 == prot && a.3 == flags && a.4 == -1 && a.5 == 0,
+        assert!(a.1 == size, "C15,C12: mmap must be asked for exactly the requested size (the region records, and Drop unmaps, `size` bytes)");
+        assert!(a.0 == 0 && a.2 == prot && a.3 == flags && a.4 == -1 && a.5 == 0,
             "C15: mmap must be called with (null, size, prot, flags, -1, 0) for an anonymous region");
         let ret = unsafe { ffi::MMAP_RET };
         if ret == libc::MAP_FAILED as usize {
@@ -41,6 +47,7 @@ pub fn build_anonymous_then_drop() {
     let (un, ua) = unsafe { (ffi::MUNMAP_CALLS, ffi::MUNMAP_ARGS) };
     if was_ok {
         assert!(un == 1 && ua.0 == unsafe { ffi::MMAP_RET } && ua.1 == size, "C12: dropping an owned region must munmap exactly (addr, size), exactly once");
+        assert!(ua.1 == unsafe { ffi::MMAP_ARGS }.1, "C12: the extent unmapped must be the extent that was mapped (anything else leaks address space or unmaps foreign pages)");
     } else {
         assert!(un == 0, "C12: nothing to unmap when construction failed");
     }
